@@ -14,7 +14,7 @@ Ltac view := cbv beta iota zeta delta
   [GApi.pystr_is_bytes GApi.pystr_payload GApi.form_is_header_tuple GApi.form_indexable GApi.form_len
    GApi.form_item0 GApi.form_item1 GApi.form_item2 flag_truthy GApi.container_is_dict
    GApi.container_items GApi.container_forms
-   Api.header_args Api.flag_truthy Api.container_headers negb].
+   Api.header_args Api.flag_truthy Api.container_headers negb bind mbind sbind fst snd].
 
 (** the two loops, whose states are (header_block, self) and (self, header_block), run in lockstep:
     both end Done with the same state or Raised with the same exception and the same encoder *)
@@ -30,7 +30,8 @@ Lemma b_Encoder_encode : forall e c huffman,
 Proof.
   intros e c huffman.
   unfold GApi.Encoder_encode, Api.Encoder_encode_api, Encoder.Encoder_encode, Encoder.encode_fields.
-  cbv beta zeta.
+  (* helpers, local definitions and combinators inlined once and for all: the loop bodies keep this form *)
+  expose.
   (* the loop *)
   match goal with
   | |- context [for_each (map Api.header_args _) ?mbody _] =>
